@@ -130,9 +130,9 @@ Definition near_tol (tol : Q) (vs : list (option Q)) : bool :=
                     | None => false
                     end) vs.
 
-Definition weights_close (expect obs : list Q) : bool :=
+Definition weights_close (eps : Q) (expect obs : list Q) : bool :=
   Nat.eqb (length expect) (length obs) &&
-  forallb (fun p => close 1 (fst p) (snd p)) (combine expect obs).
+  forallb (fun p => close eps 1 (fst p) (snd p)) (combine expect obs).
 
 Fixpoint forallb2 {X Y} (f : X -> Y -> bool) (lx : list X) (ly : list Y) : bool :=
   match lx, ly with
@@ -142,10 +142,10 @@ Fixpoint forallb2 {X Y} (f : X -> Y -> bool) (lx : list X) (ly : list Y) : bool 
   end.
 
 (** coordinates: as for BlockReduce with the mean *)
-Definition bm_coords_holds (labels : list Z) (coords : list (list Q)) (centres : list Q * list Q)
+Definition bm_coords_holds (epsc : Q) (labels : list Z) (coords : list (list Q)) (centres : list Q * list Q)
     (center drop : bool) (obs_coords : list (list Q)) : bool :=
   let cs := if drop then firstn 2 coords else coords in
-  coords_close center cs
+  coords_close epsc center cs
     (let reduced := map (spec_col qmean labels) cs in
      if center
      then centre_col (fst centres) labels :: centre_col (snd centres) labels :: skipn 2 reduced
@@ -168,19 +168,19 @@ Definition spec_means (labels : list Z) (data : list (list Q)) (weights : option
   | Some ws => map2 (spec_wcol qavg labels) data ws
   end.
 
-Definition c10_holds (strict : bool) (ddof : nat) (tol : Q) (labels : list Z) (coords data : list (list Q))
+Definition c10_holds (epsd epsc : Q) (strict : bool) (ddof : nat) (tol : Q) (labels : list Z) (coords data : list (list Q))
     (weights : option (list (list Q))) (centres : list Q * list Q) (center drop uncertainty : bool)
     (oc om ow : list (list Q)) : bool :=
-  cols_close data (spec_means labels data weights) om &&
-  forallb2 (if strict then v2w_holds eps40 tol else v2w_range_holds)
+  cols_close epsd data (spec_means labels data weights) om &&
+  forallb2 (if strict then v2w_holds epsd tol else v2w_range_holds)
            (spec_variances ddof labels data weights uncertainty) ow &&
-  bm_coords_holds labels coords centres center drop oc.
+  bm_coords_holds epsc labels coords centres center drop oc.
 
 Definition OQofD (d : option D) : option Q := match d with None => None | Some x => Some (QofD x) end.
 
 (** one BlockMean.filter case; [obs = None]: ValueError; [unchanged]: the
     caller's arrays are byte-identical after the call *)
-Definition c10_case (ddof : nat) (tol : D) (labels : list Z) (coords data : list (list D))
+Definition c10_case (epsd epsc : Q) (ddof : nat) (tol : D) (labels : list Z) (coords data : list (list D))
     (weights : option (list (list D))) (centres : list D * list D) (center drop uncertainty unchanged : bool)
     (obs : option (list (list D) * list (list D) * list (list D))) : verdict :=
   let tolq := QofD tol in
@@ -201,23 +201,26 @@ Definition c10_case (ddof : nat) (tol : D) (labels : list Z) (coords data : list
       let owq := QssofD ow in
       let tie := existsb (near_tol tolq) (spec_variances ddof labels dataq weightsq uncertainty) in
       mk_verdict_tie tie
-        (cols_close dataq mm omq && forallb2 weights_close mw owq &&
-         coords_close center (if drop then firstn 2 coordsq else coordsq) mc ocq)
-        (unchanged && c10_holds (negb tie) ddof tolq labels coordsq dataq weightsq centresq center drop uncertainty ocq omq owq)
+        (cols_close epsd dataq mm omq && forallb2 (weights_close epsd) mw owq &&
+         coords_close epsc center (if drop then firstn 2 coordsq else coordsq) mc ocq)
+        (unchanged && c10_holds epsd epsc (negb tie) ddof tolq labels coordsq dataq weightsq centresq center drop uncertainty ocq omq owq)
   end.
 
-(** one variance_to_weights case: [comps] the raveled variance arrays,
+Definition eps50 : Q := 1 # (2 ^ 50).
+
+(** one variance_to_weights case ([epsa]: absolute tolerance of the weights
+    against the model, [epsh]: relative tolerance of the rule): [comps] the raveled variance arrays,
     [shapes_in]/[shapes_out] the array shapes, [tuple_ok]: a tuple is returned
     iff more than one component was given *)
 Definition shapes_eqb (a b : list (list nat)) : bool := list_eqb (list_eqb Nat.eqb) a b.
 
-Definition c10_v2w_case (tol : D) (comps : list (list (option D))) (shapes_in shapes_out : list (list nat))
+Definition c10_v2w_case (epsa epsh : Q) (tol : D) (comps : list (list (option D))) (shapes_in shapes_out : list (list nat))
     (tuple_ok unchanged : bool) (obs : list (list D)) : verdict :=
   let tolq := QofD tol in
   let compsq := map (map OQofD) comps in
   let obsq := QssofD obs in
   mk_verdict
     (tuple_ok && shapes_eqb shapes_in shapes_out &&
-     forallb2 weights_close (variance_to_weights tolq compsq) obsq)
+     forallb2 (weights_close epsa) (variance_to_weights tolq compsq) obsq)
     (unchanged && shapes_eqb shapes_in shapes_out &&
-     forallb2 (v2w_holds (1 # 2 ^ 50) tolq) compsq obsq).
+     forallb2 (v2w_holds epsh tolq) compsq obsq).
